@@ -17,6 +17,46 @@ claim("C11",
       "Decides the aliasing statement structurally for the whole closure: forward alias-taint from every input-bytes parameter proves nothing sharing memory with the input is stored into the target, codec state, a map, a shared table/pool or returned, and nothing writes into the input; on the encode side every Store targets the encoder's own locals and the output buffer is only appended to.",
       "interprocedural SSA alias-taint analysis (copy conversions kill, slicing/unsafe casts/uintptr arithmetic propagate) + pointer-root tracing of stores")
 
+claim("C03",
+      "Decides the structural facts schema evolution rests on: Skip has a clause for every wire type a codec can report and is proved (BOUND) to return 0<=n<=len(data) without over-run; in every struct-like reader the unknown-index path skips according to the wire type read from the data, starting right after the tag, and advances the offset by exactly Skip's result; field names are touched only by the builder and Descriptor(); the struct field loop carries only the offset (decode driven by index, not position). Value-level equality of shared indexes is not decided.",
+      "table exhaustiveness over go/types + SSA linear-fact bounds analysis + who-may-access and loop-carried-state rules")
+claim("C08",
+      "Decides structural validation clauses for all struct definitions: no (nil codec, nil error); the field-registration point is dominated by the lower-case skip, missing-tag error, \"-\" skip and Atoi error check; BOUND (taint source strconv.Atoi) proves the recorded index within [0, maxIndex] and the index table sized maxIndex+1 without wrap; table stores dominated by the duplicate test; sub-codecs that may be map codecs only wrapped behind a Kind()==Map guard or the wire-type switch; nothing published before the struct codec is complete and no error return after publication; no explicit panic in the build closure.",
+      "SSA dominance rules + linear-fact bounds analysis with tag-derived taint + resolved-AST guard matching")
+claim("C09",
+      "Decides the structural presence rules: PointerWrapper never consults the pointee's Omit, passes the tag unchanged, allocates under the nil test and always delegates Read; every null codec's Omit is exactly !Valid and every success return of its Read is dominated by setting Valid; ExplicitPresence is set by exactly the pointer and null codecs. The map-entry zero-key/empty-value case is not decided (described in DESIGN.md).",
+      "SSA dominance/must-pass-through rules and data-dependence of Omit; descriptor summary over the typed AST")
+claim("C10",
+      "Decides that re-used memory is cleared before a codec reads into it and that absent fields are untouched: pooled scratch (traced interprocedurally from sync.Pool.Get) is cleared by a dominating typedmemclr/typedmemmove; element reads into re-used backing arrays are preceded on every path by a fresh allocation or the clearing call/loop (must-pass-through), scalar codecs being proved to store on every success return; StructCodec.Read hands the target only to field codecs; the shared mutable state reachable from the API is exactly the classified set.",
+      "SSA ownership analysis: pointer roots (POOL/LOADED/FRESH), must-pass-through on the CFG, shared-state inventory")
+claim("C12",
+      "Decides the structural clauses of proto mode: each option is read at exactly one decision point on the method's own receiver and selects exactly the documented codec (negated/ignored options do not count); proto-mode codecs report wire type 2 and nobody reports wire type 4; the default slice reader dispatches wt==WTLength to a reader that reads one element and appends it.",
+      "who-may-access field rules on SSA + resolved-AST decision-point matching + wire-type table")
+claim("C13",
+      "Decides that the schema-less walker mirrors the codecs: a clause for every FieldType; each scalar clause decodes with a codec reporting that field type and emits one value; the packed/counted split of readAsSlice agrees with the wire types of every producing codec; every path round the counted element loop passes through the element reader. The walker is inside C04's decode closure. JSON equality with the typed decode is not decided.",
+      "table agreement between sibling implementations over go/types (descriptor type ↔ wire type ↔ walker clauses) + CFG must-pass-through")
+claim("C14",
+      "Decides that Descriptor() mirrors the encoder: field type ↔ wire type relation for every codec; every codec's resolved (Type, LogicalType) equals the table from the property statement; StructCodec.Descriptor is built from the same field slice, order, index and name as the encoder; name = Go name overridden exactly by a non-empty json tag name; map key/value descriptor indexes equal the wire tag indexes; ExplicitPresence for exactly pointer/null codecs; skipped fields never enter the field list.",
+      "descriptor summaries over the typed AST, SSA data-dependence for the name/index stores")
+claim("C15",
+      "Necessary conditions only: value-set analysis of the escaping loop over all 256 bytes (guards folded per byte, appended bytes must be a valid JSON escape of that byte or the byte itself); shortest-round-trip float formatting arguments; Reset returns every field (from go/types) to zero; each scalar/container method follows the prefix→emit→punctuate protocol with the right pushes, brackets and separators. Validity for all nestings is a model-checking question and is not decided.",
+      "finite value-set analysis (constant folding of guards over 256 values) + protocol/typestate rules on the typed AST")
+claim("C16",
+      "Decides that the four dynamic-type dispatch tables (size, append, typed reader, descriptor walker) are one table: same Go type, type code, codec and tag length per clause; reader decodes into a local of the same Go type and stores it; walker decodes with the same grammar and emits exactly one value, including for values carried by the code alone (nil); defaults panic consistently; codes pairwise distinct. Round trip of trees as values is not decided.",
+      "cross-checking sibling dispatch tables over the typed AST")
+claim("C17",
+      "Decides the scoping statement: defaultPlenc is the only package-level registry and is referenced only by package-level functions of plenc; methods use only their own receiver's registry; the registry argument is threaded through every recursive build; package-level functions are pure delegates; keys are (typ, tag) everywhere; lookup dominates the kind switch; named types map to the codec of their basic kind; each option is read once, on its own receiver.",
+      "who-may-call / who-may-access rules on SSA and the typed AST, dominance of lookup over construction")
+claim("C18",
+      "Decides the Skip clause and structural agreement of the primitives: BOUND proves Skip returns 0<=n<=len(data), never slices out of range and terminates; the read primitives' contracts are re-derived from binary.Uvarint's; Skip covers every wire type in use; signed primitives are the unsigned ones composed with zig-zag; tag shift/mask constants agree (3, 7). NOT APPLICABLE PART: numeric agreement for all 2^64 values, zig-zag bijectivity, tag round trip for all indexes - bit-precise reasoning needs a solver or evaluation, outside this family.",
+      "SSA linear-fact bounds analysis of plenccore + table/constant agreement rules")
+claim("C19",
+      "Decides aliasing/immutability/encoding-independence of interning: alias-taint on the intern path (every inserted string is a copy; nothing tainted reaches a table, an atomic store or the target); table pointer accessed only via sync/atomic, atomically loaded tables never updated, published tables created by the publisher; interning codecs inherit everything but Read; intern fields are looked up with the empty tag and get a fresh interner. Equality of decoded strings under every history is not decided.",
+      "SSA alias-taint + atomic/copy-on-write ownership rules + method-set resolution (go/types Selection)")
+claim("C20",
+      "Crash-freedom and tag-preservation clauses only: BOUND proves every index into lists from the parsed file is length-guarded; the tag rewrite and tags.Set are dominated by 'no plenc tag present' and only the constant key plenc is set; new indexes are running max + 1, carried forward, starting from the maximum of a completed first pass. Formatting, compilability, idempotence and multi-name fields are not decided.",
+      "SSA linear-fact bounds analysis + dominance/dataflow rules on cmd/plenctag")
+
 for _i in range(1, 21):
     _id = "C%02d" % _i
     if _id not in CLAIMS:
